@@ -373,6 +373,25 @@ def r_sign_check(inputs, params, obligation):
     flag, allowed = inputs['flag'], inputs['allowed']
     obs, r, stack, cache = c_sign_check(inputs, params)
     permitted = not (flag & ~allowed & 0xff)
+    SIGN_SIDE = ('sign_no_error', 'sign_one_item', 'one_signature_made', 'signed_with_supplied_seed', 'signed_message_is_flag_selected_fields',
+                 'signature_length', 'signature_bytes', 'flag_byte_appended', 'sign_does_not_write_str_keys')
+    if obligation in SIGN_SIDE:
+        # the SIGN half alone, whatever the checker would allow: a signature of the right shape over the reference message
+        import tapescript
+        from tapescript import functions as RF
+        st = tapescript.Stack()
+        st.put(inputs['seed'])
+        rs = outcome_of(RF.OP_SIGN, tapescript.Tape(bytes([flag]), plugins={}, flags={9: False}), st, dict(cache))
+        if rs[0] != 'ok' or len(st) != 1:
+            return {'reproduced': True, 'sign': repr(rs)[:160], 'flag': flag}
+        sig = st.get()
+        try:
+            VerifyKey(bytes(SigningKey(inputs['seed']).verify_key)).verify(_ref_message_c(fields, flag), sig[:64])
+            okm = True
+        except Exception:
+            okm = False
+        shape = len(sig) == (65 if flag else 64) and (not flag or sig[64] == flag)
+        return {'reproduced': not (okm and shape), 'sig': sig.hex(), 'flag': flag, 'valid_over_reference_message': okm}
     if not permitted:
         return {'reproduced': r[0] != 'raise', 'r': repr(r)}
     if r[0] != 'ok' or stack.list() != [b'\xff']:
